@@ -18,6 +18,24 @@ NA = {
  "C46": "pure function of an Options value (serialize/parse round trip; inputs/configurations only)",
 }
 
+def technique(pid, p):
+    base = "deterministic simulation with fault injection: real Pebble code (source-rewritten so that a seeded baton scheduler decides every interleaving, on a fake clock and a simulated disk) driven by seeded plans; "
+    eng, prof = p["engine"], p["profile"]
+    if eng == "dbsim" and p["level"] == "fault_enumeration":
+        return base + "crash faults enumerated inside each seeded run (crash images at sampled/all disk-mutation indices x survival specs of unsynced data, recovered by real Pebble) and checked against a reference model of the history"
+    if eng == "dbsim" and prof in ("iofault", "corrupt"):
+        return base + "seeded I/O-error rules and one-shot faults armed inside operations / bit rot of files at rest; every returned result checked against a reference model, recovery checked with the crash oracle"
+    if eng == "dbsim" and prof in ("commit", "concurrent"):
+        return base + "seeded schedule search over concurrent clients; the recorded history (event-sequence stamped) is checked against the reference model in sequence-number order (atomicity, read-your-writes, monotone visibility)" + ("; race detector build" if p.get("race") else "")
+    if eng == "dbsim":
+        return base + "seeded search over histories, configurations and background-work schedules; every read checked operation by operation against an independent reference model"
+    if eng == "cache":
+        return base + "seeded schedule search at atomic-operation granularity; recorded history checked for linearizability with porcupine against a per-block register model"
+    if eng == "marker":
+        return base + "complete enumeration of crash points x survival subsets within each seeded sequence, with injected I/O errors"
+    return base + "seeded schedule (and fault) search on the real component, oracle evaluated at every step"
+
+
 def main():
     here = os.path.dirname(os.path.abspath(__file__))
     ids = [json.loads(l)["id"] for l in open(os.path.join(here, "properties.jsonl"))]
@@ -35,7 +53,7 @@ def main():
             "engine": "%s/%s" % (p["engine"], p["profile"]),
             "level_claimed": {"category": p["level"], "text": m["text"], "design_ref": m.get("design_ref", "DESIGN.md section 3, " + pid)},
             "level_note": m["note"],
-            "technique": m.get("technique", "deterministic simulation with fault injection: seeded schedule/fault search over real Pebble code, checked against a reference model"),
+            "technique": m.get("technique", technique(pid, p)),
         })
     na = [{"property_id": pid, "reason": NA.get(pid, "not claimed yet: the simulation profile for this property is not built/validated at this commit (see DESIGN.md section 12)")} for pid in ids if pid not in PROPS]
     man = {
